@@ -11,6 +11,14 @@ Cases == JsonDeserialize(IOEnv.TRACE_FILE)
 VARIABLE i
 tvars == <<i, Z, u>>
 RatEq(p, q) == p[1] * q[2] = q[1] * p[2]
+\* equality of rationals by normal forms (no cross-multiplication: the terms may be close to the 32-bit range)
+RECURSIVE GcdN(_, _)
+GcdN(a, b) == IF b = 0 THEN a ELSE GcdN(b, a % b)
+AbsN(x) == IF x < 0 THEN -x ELSE x
+NormRat(p) == LET g == GcdN(AbsN(p[1]), AbsN(p[2]))
+                  sg == IF p[2] < 0 THEN -1 ELSE 1
+              IN IF p[1] = 0 THEN <<0, 1>> ELSE <<sg * (p[1] \div g), sg * (p[2] \div g)>>
+RatEqN(p, q) == NormRat(p) = NormRat(q)
 
 \* coefficient of determination 1 - SSE/SST of the model's predictions for integer responses Y
 SSE(c, t) == SumTo([a \in 1..Len(c.Z) |-> (c.Y[a][t] - Gegv(c.Z, c.u, c.d, c.b, a, t)) * (c.Y[a][t] - Gegv(c.Z, c.u, c.d, c.b, a, t))], Len(c.Z))
@@ -29,7 +37,7 @@ PredictVerdict(c) ==
        ELSE IF \E a \in 1..n : \E t \in T : c.gegv[a][t] # Gegv(c.Z, c.u, c.d, c.b, a, t) THEN "gegv"
        ELSE IF \E a \in 1..n : \E t \in T : c.pred[a][t] # Gegv(c.Z, c.u, c.d, c.b, a, t) THEN "predict"
        ELSE IF c.r2on /\ \E t \in T : c.r2nan[t] # (SSTn(c, t) = 0) THEN "score-undefined-exactly-when-the-response-is-constant"
-       ELSE IF c.r2on /\ \E t \in T : ~c.r2nan[t] /\ ~RatEq(c.r2[t], <<SSTn(c, t) - Len(c.Z) * SSE(c, t), SSTn(c, t)>>) THEN "score"
+       ELSE IF c.r2on /\ \E t \in T : ~c.r2nan[t] /\ ~RatEqN(c.r2[t], <<SSTn(c, t) - Len(c.Z) * SSE(c, t), SSTn(c, t)>>) THEN "score"
        ELSE IF \E t \in T : c.varA[t] # VarA(c.Z, c.u, c.b, t) THEN "var_A"
        ELSE IF \E t \in T : c.varG[t] # VarG(c.Z, c.u, c.d, c.b, t) THEN "var_G"
        ELSE IF \E t \in T : c.vara[t] # VarGenicP(c.Z, c.u, t, P) THEN "var_a"
